@@ -69,6 +69,18 @@ def check_config(method, n, order, ratio):
     problems = []
     if not homog:
         problems.append(('not-homogeneous', 'difference quotient of t^k is not d_k h^k (or not real)'))
+    # the same ratio handed over as a 0-d array, a numpy scalar, a Python float: the same weights, bit for bit
+    for fname_, rv in (('0-d ndarray', np.asarray(r_e)), ('numpy scalar', np.float64(r_e)), ('Python float', float(r_e))):
+        try:
+            w2 = np.asarray(fdm.LogRule(n=n, method=method, order=order).rule(step_ratio=rv), dtype=float)
+        except Exception as e:      # noqa: BLE001
+            problems.append(('ratio-form:raised-%s' % type(e).__name__, 'rule(step_ratio=%r) [%s] raised %s: %s'
+                             % (rv, fname_, type(e).__name__, e)))
+            break
+        if w2.shape != w.shape or w2.tobytes() != w.tobytes():
+            problems.append(('ratio-form:differs', 'rule(step_ratio=%r) [%s] gives %r, with the plain number %r'
+                             % (rv, fname_, w2.tolist(), w.tolist())))
+            break
     wq = [F(float(v)) for v in w]
     rq = F(r_e)
     inv = 1 / rq
